@@ -304,8 +304,11 @@ fn cmp<M: Timeline<Target = P>, B: Timeline<Target = P>>(id: usize, m: &M, b: &B
     let mut ts = vec![0.0f32, delay * 0.5];
     for j in 0..26 { ts.push(delay + cycle * (j as f32 + 0.5) / 8.0); }
     if exact_timing { for j in 0..=24 { ts.push(delay + cycle * j as f32 / 8.0); } ts.push(delay); }
-    if total.is_finite() { ts.push(total + 1.0); ts.push(total * 2.0 + 3.0); }
-    if exact_timing || total.is_finite() { ts.push(1.0e6); }
+    // after the end (only when the end is near enough for `total + 1` to be a different number)
+    if total < 1.0e6 { ts.push(total + 1.0); ts.push(total * 2.0 + 3.0); }
+    // far time: only when both timings are bit-identical or the animation is long over by then
+    // (a 1-ulp difference in the cycle literal drifts the phase of a still-running timeline)
+    if exact_timing || total < 0.5e6 { ts.push(1.0e6); }
     for &t in &ts {
         *evals += 1;
         let mut pm = P { a: -5.5, k: 91 };
@@ -422,7 +425,7 @@ pub fn run(run: Run) -> ! {
     cov.insert("programs_compiled".into(), json!(compiled + rejected));
     cov.insert("evaluations".into(), json!(a_sentences + evals));
     cov.insert("distinct_nontrivial".into(), json!(acc.distinct_programs.len()));
-    cov.insert("rule".into(), json!("Layer A (in-process, real macro sources included textually): F1 = every subset of {duration, delay, repeat, reverse, easing} x 0..3 keyframes x EVERY order of the arguments with keyframes interleaved, literal forms rotated; F2 = canonical order x ALL combinations of literal forms (10 durations incl. 1_500ms, 2e3ms, `for`; 3 delays; 1x/3x/infinite; reverse; 3 easing paths) x keyframe lists over 9 positions (from,to,0%,10%,25%,40%,100%,12.5%,33.3%) x 4 bodies; F3 = all merged lists of 1..3 members from a 12-sentence pool; each expansion is parsed back into a builder program and compared with the documented reading (numbers within 1 ulp of the exact decimal, structure equal, keyframes and members in source order); 16 ill-formed sentences must be rejected. Layer B: a covering subset compiled with the real proc macro and run against builder twins (values on a time grid, delay/cycle within 1 ulp, duration within 2 ulp, repeat equal); ill-formed sentences compiled one per cargo invocation must fail. non-trivial = distinct expansions (hash of token stream, capped)"));
+    cov.insert("rule".into(), json!("Layer A (in-process, real macro sources included textually): F1 = every subset of {duration, delay, repeat, reverse, easing} x 0..3 keyframes x EVERY order of the arguments with keyframes interleaved, literal forms rotated; F2 = canonical order x ALL combinations of literal forms (10 durations incl. 1_500ms, 2e3ms, `for`; 3 delays; 1x/3x/infinite/16_777_217x (not representable in f32)/4294967295x; reverse; 3 easing paths) x keyframe lists over 9 positions (from,to,0%,10%,25%,40%,100%,12.5%,33.3%) x 4 bodies; F3 = all merged lists of 1..3 members from a 12-sentence pool; each expansion is parsed back into a builder program and compared with the documented reading (numbers within 1 ulp of the exact decimal, structure equal, keyframes and members in source order); 16 ill-formed sentences must be rejected. Layer B: a covering subset compiled with the real proc macro and run against builder twins (values on a time grid, delay/cycle within 1 ulp, duration within 2 ulp, repeat equal); ill-formed sentences compiled one per cargo invocation must fail. non-trivial = distinct expansions (hash of token stream, capped)"));
     cov.insert("exhaustive".into(), json!(true));
     cov.insert("compiled_timeline_evaluations".into(), json!(evals));
     cov.insert("ill_formed_rejected_in_process".into(), json!(ill));
